@@ -35,6 +35,9 @@ def tasks(tier):
     for fast in (True, False):
         for kind in ("uhf_cpmc", "ghf_cpmc"):
             t.append((C, "site_body", dict(kind=kind, fast=fast)))
+    # what follows the site loop: weights *= exp(dt * E_shift) with E_shift = pop_control_ene_shift, cap, population-control update
+    t.append((C, "tail", dict(cls_name="propagator_cpmc", kind="uhf_cpmc")))
+    t.append((C, "tail", dict(cls_name="propagator_cpmc", kind="ghf_cpmc")))
     return t
 
 
